@@ -139,4 +139,9 @@ def run(ctx: core.Ctx) -> int:
     # what is compiled is the user's expression / its exact derivative: no sympy rewriting outside the CSE gate (shared with C01)
     from . import c01 as _c01nr
     _c01nr.py_no_rewrite(ctx, _pm, "py/formak/python.py")
+    from . import c01 as _c01cv
+    _c01cv.sensor_calibration_vector(ctx)
+    # "unless the reading is rejected by innovation filtering": the gate sensor_model consults is the documented one (C06's Python-side forms)
+    from . import c06 as _c06g
+    _c06g.py_gate_forms(ctx)
     return core.finish(ctx, explanation="E2 axis typing + E3 normal forms of sensor_model's records and results", **META)
